@@ -667,6 +667,69 @@ func termination(newCmd func() *cobra.Command, base string, res *Result, add add
 		_ = os.RemoveAll(dir)
 	}
 	res.Parts["termination_prefixes"] = len(steps) + 1
+	// read-only store, collection at its default schedule: termination (which lets every repository leave the cache)
+	// leaves the directory exactly as it was - also a repository without manifests and a left-over empty _uploads
+	for k := 0; k <= 3; k++ {
+		dir := filepath.Join(base, fmt.Sprintf("ro%d", k))
+		writeTemplate(dir)
+		_ = os.MkdirAll(filepath.Join(dir, "r", "_uploads"), 0o755)
+		_ = os.MkdirAll(filepath.Join(dir, "emptyrepo", "blobs", "sha256"), 0o755)
+		_ = os.WriteFile(filepath.Join(dir, "emptyrepo", "oci-layout"), []byte(`{"imageLayoutVersion":"1.0.0"}`), 0o644)
+		_ = os.WriteFile(filepath.Join(dir, "emptyrepo", "index.json"), []byte(`{"schemaVersion":2,"mediaType":"application/vnd.oci.image.index.v1+json","manifests":[]}`), 0o644)
+		args := []string{"--dir", dir, "--store-ro"}
+		label := fmt.Sprintf("read-only store, SIGTERM after %d read requests", k)
+		before := snapshot(dir)
+		r, err := start(newCmd, args)
+		if err != nil {
+			add(label, args, "serve-starts", "serve-did-not-start", "%v", err)
+			continue
+		}
+		res.Points++
+		reads := []string{"/v2/r/tags/list", "/v2/emptyrepo/tags/list", "/v2/r/manifests/t"}
+		for i := 0; i < k; i++ {
+			if g := do(r.srv, "GET", reads[i], nil, "Accept", types.MediaTypeOCI1Manifest); g.status != 200 {
+				add(label, args, "history", "history-step-failed", "GET %s answered %d", reads[i], g.status)
+			}
+		}
+		err, hung := r.stop()
+		res.Probes++
+		if hung {
+			add(label, args, "termination-clean", "termination-hangs", "serve did not return within 8 s after SIGTERM")
+			return
+		}
+		if err != nil {
+			add(label, args, "termination-clean", "termination-error", "serve returned %v", err)
+		}
+		if after := snapshot(dir); after != before {
+			add(label, args, "storage-intact", "read-only-directory-changed-by-termination", "the directory of a read-only store changed between start and the return of serve:\n%s", treeDiff(before, after))
+		}
+		_ = os.RemoveAll(dir)
+	}
+	res.Parts["read_only_termination_prefixes"] = 4
+}
+
+func treeDiff(a, b string) string {
+	in := func(s string) map[string]bool {
+		m := map[string]bool{}
+		for _, l := range strings.Split(s, "\n") {
+			m[l] = true
+		}
+		return m
+	}
+	ma, mb := in(a), in(b)
+	var out []string
+	for l := range ma {
+		if !mb[l] {
+			out = append(out, "  - "+l)
+		}
+	}
+	for l := range mb {
+		if !ma[l] {
+			out = append(out, "  + "+l)
+		}
+	}
+	sort.Strings(out)
+	return strings.Join(out, "\n")
 }
 
 // earlyTermination: the signal arrives before Server.Run has registered its listener ("a termination signal at any time").
